@@ -80,7 +80,7 @@ class CipherScenario(Scenario):
                     "how": rng.choice(["short", "short", "unaligned", "unaligned", "method-unknown", "method-missing", "ct-not-str",
                                        "bad-base64", "not-a-map", "method-empty", "ct-missing", "aligned-cut", "aligned-cut", "aligned-ext",
                                        "iv-flip"]),
-                    "n": rng.randrange(1, 40), "via": rng.choice(["keyfile", "field", "provider"])}
+                    "n": rng.randrange(1, 40), "via": rng.choice(["keyfile", "field", "provider"]), "reuse": rng.random() < 0.5}
         if st.vault and r < st.h["p_tamper"] + 0.3:
             return {"op": "decrypt", "item": rng.randrange(len(st.vault)), "via": rng.choice(["keyfile", "provider", "field"]),
                     "other_key": rng.random() < 0.25, "reuse": rng.random() < 0.5}
@@ -105,6 +105,16 @@ class CipherScenario(Scenario):
         if kpath in kfs:
             rec.probe("keyfile-object-reused")
         return kfs.setdefault(kpath, KeyFile(kpath))
+
+    def fieldcfg(self, st, kpath, reuse, rec):
+        """The configuration whose secure fields do the work: a new one, or the long-lived one of this session for that key
+        file (a secret that failed to load or save earlier must not leave anything behind in it)."""
+        if not reuse:
+            return st.schema(key_filename=kpath)
+        cfgs = st.__dict__.setdefault("fcfgs", {})
+        if kpath in cfgs:
+            rec.probe("config-object-reused")
+        return cfgs.setdefault(kpath, st.schema(key_filename=kpath))
 
     def do_key_event(self, st, op, rec):
         """The key file changes between operations: torn, put back, replaced by another valid key."""
@@ -148,6 +158,7 @@ class CipherScenario(Scenario):
         if k == "restart":
             st.provs = {}
             st.kfs = {}
+            st.fcfgs = {}
             st.session += 1
             seams.reset_process_state()
             rec.log("restart")
@@ -226,7 +237,7 @@ class CipherScenario(Scenario):
             ct, err = self._call(lambda: prov.encrypt(pt))
             sv = SecureValue(method, ct) if err is None else None
         else:
-            cfg = st.schema(key_filename=kpath)
+            cfg = self.fieldcfg(st, kpath, op.get("reuse"), rec)
             fld = {"aes": st.schema.aes, "xor": st.schema.xor, "best": st.schema.best}[method]
             basic, err = self._call(lambda: fld.to_basic(cfg, text))
             sv = None
@@ -291,7 +302,7 @@ class CipherScenario(Scenario):
             prov = self.provider(st, key, it["method"], op.get("reuse"), rec)
             out, err = self._call(lambda: prov.decrypt(it["ct"]))
         else:
-            cfg = st.schema(key_filename=kpath)
+            cfg = self.fieldcfg(st, kpath, op.get("reuse"), rec)
             stored = {"method": it["method"], "ciphertext": base64.b64encode(it["ct"]).decode()}
             out, err = self._call(lambda: st.schema.aes.to_python(cfg, stored))
             if err is None and isinstance(out, str):
@@ -402,7 +413,7 @@ class CipherScenario(Scenario):
                     return kf.decrypt(SecureValue(method, ct2))
             out, err = self._call(run)
         else:
-            cfg = st.schema(key_filename=it["kpath"])
+            cfg = self.fieldcfg(st, it["kpath"], op.get("reuse"), rec)
             out, err = self._call(lambda: st.schema.best.to_python(cfg, stored))
         rec.log("tamper", how, via, it["method"], claim, type(err).__name__ if err else "ok")
         rec.kind(how + ":" + via)
@@ -469,7 +480,10 @@ class ChallengeScenario(Scenario):
                 # bound to an environment variable that is unset, or defined but empty: "as if no binding existed"
                 f["env"] = rng.choice(["unset", "empty"])
             fields.append(f)
-        return {"fields": fields, "max_ops": rng.randint(6, self.max_ops), "formats": rng.sample(ops.FORMATS, rng.randint(1, 5))}
+        return {"fields": fields, "max_ops": rng.randint(6, self.max_ops), "formats": rng.sample(ops.FORMATS, rng.randint(1, 5)),
+                # the nested section may carry a feature flag that is off or unset: its fields are exempt from validation runs,
+                # but a secret assigned there is hashed like anywhere else
+                "sub_flag": rng.choice([None, None, "off", "unset", "on"])}
 
     def build(self, st):
         sch = cc.Schema()
@@ -501,6 +515,9 @@ class ChallengeScenario(Scenario):
                 sch["sub." + f["key"]] = fld
             else:
                 sch[f["key"]] = cc.ListField(fld)
+        flag = st.h.get("sub_flag")
+        if flag and any(f["where"] == "sub" for f in st.h["fields"]):
+            sch["sub.enabled"] = cc.FeatureFlagField(default={"off": False, "unset": None, "on": True}[flag])
         return sch
 
     def get(self, st, f):
